@@ -36,6 +36,8 @@ inductive Val where
   | ctx (c : Ctx)
   | dnil
   | dcons (k : String) (v : Val) (rest : Val)
+  | lnil                                   -- JSON arrays, encoded like the dictionaries
+  | lcons (v : Val) (rest : Val)
 deriving DecidableEq, Repr
 
 /-- a python `dict` with insertion order (keys are unique in every dict the model builds) -/
